@@ -711,6 +711,77 @@ def q2(rep, info, f_genc):
     rep.floor("builtins with a summarised runtime entry", checked, 60)
 
 
+def _q7_digest(f):
+    """Multiple assignment `(a, b, c) := f()`: the analyses walk the targets through a (vector, count) pair taken from the
+    Values node.  Returns the pairs found in one unit."""
+    out = []
+    for name, fn in f.funcs.items():
+        if "body" not in fn or not fn["file"].endswith(f.unit):
+            continue
+        par = None
+        for x in walk(fn["body"]):
+            if x["k"] != "BinaryOperator" or x["op"] != "=":
+                continue
+            r = strip(x["c"][1])
+            if r is None or r["k"] != "MemberExpr" or r["n"] != "argv":
+                continue
+            u = strip(r["c"][0])
+            if u is None or u["k"] != "MemberExpr" or u["n"] != "foamValues":
+                continue
+            node = render(strip(u["c"][0]))
+            if par is None:
+                par = common.parents(fn["body"])
+            # the statement list this assignment belongs to (through case labels)
+            cur = x
+            while cur["id"] in par and par[cur["id"]]["k"] != "CompoundStmt":
+                cur = par[cur["id"]]
+            blk = par.get(cur["id"])
+            if blk is None:
+                continue
+            flat = []
+            for st in blk["c"]:
+                while st is not None and st["k"] in ("CaseStmt", "DefaultStmt"):
+                    st = st["c"][-1]
+                if st is not None:
+                    flat.append(st)
+            idx = [i for i, st in enumerate(flat) if any(y is x for y in walk(st))]
+            if not idx:
+                continue
+            counts = []
+            for st in flat[max(0, idx[0] - 2): idx[0] + 3]:
+                st_ = strip(st)
+                if st_ is None or st_["k"] != "BinaryOperator" or st_["op"] != "=" or st_ is x:
+                    continue
+                mentions = [y for y in walk(st_["c"][1]) if y.get("mac") == "foamArgc"]
+                if mentions:
+                    rhs = strip(st_["c"][1])
+                    exact = rhs.get("mac") == "foamArgc" and render(rhs) in ("((%s)->hdr.argc)" % node, "(%s)->hdr.argc" % node)
+                    counts.append({"line": st_["l"], "text": render(st_)[:80], "exact": bool(exact)})
+            out.append({"func": name, "line": x["l"], "node": node, "counts": counts})
+    return out
+
+
+def q7(rep):
+    units = [u for u in common.compiler_units() if u.startswith("of_") or u in ("usedef.c", "flog.c", "dflow.c", "optfoam.c")]
+    dig = common.map_units(units, _q7_digest, all_trees=True)
+    n = 0
+    for u in sorted(dig):
+        for s_ in dig[u]:
+            if not s_["counts"]:
+                continue                   # the vector is indexed directly (bound checked elsewhere)
+            n += 1
+            key = "values-count:%s:%s@%s" % (u, s_["func"], s_["node"])
+            bad = [c for c in s_["counts"] if not c["exact"]]
+            if not bad:
+                rep.ok("Q7", key, nontrivial=(n <= 3))
+            else:
+                rep.violation("Q7", key, "%s:%d (%s)" % (u, bad[0]["line"], s_["func"]),
+                              "the targets of a multiple assignment are walked with a count that is not foamArgc(%s) (`%s`): a target "
+                              "is left out of the analysis, so the optimizer treats a variable that the statement assigns as "
+                              "unchanged" % (s_["node"], bad[0]["text"]))
+    rep.floor("(vector, count) pairs over the targets of a multiple assignment", n, 10)
+
+
 def run(tier, only=None):
     rep = common.Report("C02", tier, EXPLANATION)
     f_foam = common.extract("foam.c", trees=["foamHasSideEffect", "foamIsControlFlow"])
@@ -723,6 +794,7 @@ def run(tier, only=None):
     q4(rep, f_peep)
     q5(rep)
     q6(rep)
+    q7(rep)
     rep.assumptions += ["allocation and errno are not effects",
                         "the meaning of the table columns is the one fixed by peepBinaryBCall/peepUnaryBCall/peepNegate "
                         "(operands of a binary dual are swapped)",
